@@ -370,6 +370,9 @@ impl OptimizationRouter {
             if matches!(var, crate::variables::Var::VarF(_)) {
                 return Some(var_id);
             }
+            // The objective is an integer variable: optimising some float variable of the model
+            // instead (Step 2) would answer a different question
+            return None;
         }
         
         // Step 2: For non-direct objectives, fall back to conservative heuristics
